@@ -11,11 +11,12 @@
 -/
 import XsVerif.Model.NsMapper
 import XsVerif.Lemmas.NsMapper
+import XsVerif.Lemmas.NsStack
 
 set_option linter.unusedSimpArgs false
 
 namespace XsVerif.Props.C17
-open XsVerif.NsMapper XsVerif.NsMapper.Map
+open XsVerif.NsMapper XsVerif.NsMapper.Map XsVerif.NsMapper.Stack
 
 /-! ### S: resolution of a key by the XML Namespaces rules -/
 
@@ -358,5 +359,94 @@ theorem delItem_inv (m m' : Mapper) (p : String) (hi : Inv m) (h : delItem m p =
 
 example : ∃ m', delItem ⟨[("p", "u1"), ("q", "u1")], [("u1", "p")], []⟩ "p" = some m' ∧
     mapQName m' ⟨"u1", "e"⟩ = .pre "q" "e" := ⟨_, rfl, by decide⟩
+
+
+/-! ### stack discipline (stacked mode, both repointing rules) -/
+
+/-- **At every element the namespaces in force are exactly the declarations in scope.**
+    For every document tree (any size, depth, any redeclaration / shadowing pattern; sibling elements
+    are distinct objects) decoded from a mapper with an empty context stack, the maps in force when the
+    element's key is produced and when its attribute keys are produced are both the fold of the xmlns
+    declarations on the path root → element over the initial map (`specObs`). -/
+theorem stack_discipline (v : Variant) (t : Tree) (m0 : Mapper) (h0 : m0.stack = []) (hd : SibDistinct t) :
+    (visit v .stacked 0 t m0).2.map proj = specObs m0.ns t :=
+  (visit_spec v t hd 0 m0 [] m0.ns m0.rev [] (by intro c hc; cases hc) (Or.inl ⟨h0, rfl, rfl⟩) (by simp)).2
+
+/-- **Leaving a subtree restores both maps and the stack exactly.**  After the whole visit of an element at
+    level `L` (arbitrary subtree below it), the next call for a sibling puts the mapper back into the state
+    it had before the element — `namespaces`, `_reverse` and `_xmlns_contexts` are equal, not just equivalent. -/
+theorem subtree_restores (v : Variant) (t : Tree) (hd : SibDistinct t) (L : Nat) (m : Mapper)
+    (hb : Below L m.stack) (sibling : Nat) (hne : sibling ≠ Tree.id t) :
+    (setContext v .stacked (visit v .stacked L t m).1 sibling L []).m = m := by
+  have h := (visit_spec v t hd L m m.stack m.ns m.rev [] hb (Or.inl ⟨rfl, rfl, rfl⟩) (by simp)).1
+  rw [enter_spec v sibling [] hb h (by simpa using hne)]
+  simp [entered]
+
+/-! ### end to end: every key of the decoded document resolves to the name of its node -/
+
+mutual
+/-- prefixes declared on one element are distinct, everywhere in the document -/
+def DeclsNodup : Tree → Prop
+  | .node _ _ _ decl ch => NodupKeys decl ∧ DeclsNodupList ch
+def DeclsNodupList : List Tree → Prop
+  | [] => True
+  | t :: ts => DeclsNodup t ∧ DeclsNodupList ts
+end
+
+/-- an observation was produced by consistent mapper states -/
+def ObsOk (o : Obs) : Prop :=
+  (∃ m1, Inv m1 ∧ o.key = mapQName m1 o.tag ∧ o.nsAtKey = m1.ns) ∧
+  (∃ m3, Inv m3 ∧ o.nsAtAttrs = m3.ns ∧ ∀ a ∈ o.attrs, a.2 = mapQName m3 a.1)
+
+mutual
+theorem visit_inv : ∀ (t : Tree), DeclsNodup t → ∀ (L : Nat) (m : Mapper), Inv m →
+    Inv (visit .repaired .stacked L t m).1 ∧ ∀ o ∈ (visit .repaired .stacked L t m).2, ObsOk o
+  | .node id tag attrs decl ch, hk, L, m, hi => by
+    simp only [DeclsNodup] at hk
+    have i1 := setContext_stacked_inv .repaired m id L decl hi hk.1 (Or.inl rfl)
+    obtain ⟨i2, o2⟩ := visitList_inv ch hk.2 (L + 1) _ i1
+    have i3 := setContext_stacked_inv .repaired _ id L decl i2 hk.1 (Or.inl rfl)
+    simp only [visit]
+    refine ⟨i3, ?_⟩
+    intro o ho
+    rcases List.mem_cons.mp ho with e | e
+    · subst e
+      refine ⟨⟨_, i1, rfl, rfl⟩, ⟨_, i3, rfl, ?_⟩⟩
+      intro a ha
+      obtain ⟨q, _, rfl⟩ := List.mem_map.mp ha
+      rfl
+    · exact o2 o e
+theorem visitList_inv : ∀ (ts : List Tree), DeclsNodupList ts → ∀ (L : Nat) (m : Mapper), Inv m →
+    Inv (visitList .repaired .stacked L ts m).1 ∧ ∀ o ∈ (visitList .repaired .stacked L ts m).2, ObsOk o
+  | [], _, L, m, hi => by simp only [visitList]; exact ⟨hi, by simp⟩
+  | t :: ts, hk, L, m, hi => by
+    simp only [DeclsNodupList] at hk
+    obtain ⟨i1, o1⟩ := visit_inv t hk.1 L m hi
+    obtain ⟨i2, o2⟩ := visitList_inv ts hk.2 L _ i1
+    simp only [visitList]
+    refine ⟨i2, ?_⟩
+    intro o ho
+    rcases List.mem_append.mp ho with e | e
+    · exact o1 o e
+    · exact o2 o e
+end
+
+/-- **Decoded names resolve back to the same QNames** (stacked mode, repaired repointing rule).
+    For every document (distinct prefixes per element) decoded from a consistent mapper: the key of every
+    element, resolved by the XML Namespaces rules with the namespaces in force at the element — which by
+    `stack_discipline` are exactly the declarations in scope — is the element's expanded name; names in
+    no namespace are required to occur only where the default namespace is unset (well-formedness). -/
+theorem decoded_names_resolve (t : Tree) (m0 : Mapper) (hi : Inv m0) (hk : DeclsNodup t) :
+    ∀ o ∈ (visit .repaired .stacked 0 t m0).2,
+      (o.tag.ns = "" → DefaultUnset o.nsAtKey) → resolveElem o.nsAtKey o.key = some o.tag := by
+  intro o ho hd
+  obtain ⟨⟨m1, i1, hkey, hns⟩, _⟩ := (visit_inv t hk 0 m0 hi).2 o ho
+  rw [hkey, hns]
+  exact roundtrip_elem m1 o.tag i1.1.1 (by rw [← hns]; exact hd)
+
+example : (visit .pinned .stacked 0
+    (.node 0 ⟨"", "r"⟩ [] [("p", "u1")] [.node 1 ⟨"u2", "c"⟩ [] [("p", "u2")] [], .node 2 ⟨"u1", "c"⟩ [] [] []])
+    ⟨[("p", "u1")], [("u1", "p")], []⟩).2.map (fun o => (o.id, o.key)) =
+    [(0, .loc "r"), (1, .pre "p" "c"), (2, .pre "p" "c")] := by decide
 
 end XsVerif.Props.C17
